@@ -27,12 +27,18 @@ func must(err error) {
 	}
 }
 
+// paramGlobals: for a parameter of a function of ours, a package-level variable whose address (or an
+// address derived from it) some call site passes in that position. Filled to a fixpoint in main.
+var paramGlobals = map[*ssa.Parameter]*ssa.Global{}
+
 // globalOf traces a value back to the package-level variable it was loaded from, if any.
 func globalOf(v ssa.Value, depth int) *ssa.Global {
 	if depth > 6 {
 		return nil
 	}
 	switch x := v.(type) {
+	case *ssa.Parameter:
+		return paramGlobals[x]
 	case *ssa.Global:
 		return x
 	case *ssa.UnOp:
@@ -100,6 +106,41 @@ func main() {
 		writes[f][g.Pkg.Pkg.Name()+"."+g.Name()] = true
 	}
 	allFns := ssautil.AllFunctions(prog)
+	// 0. addresses of package-level variables handed to our own functions (`reLazy(&re, …)`): a store through
+	// such a parameter is a store to the variable. Propagated through parameters to a fixpoint.
+	for changed, round := true, 0; changed && round < 8; round++ {
+		changed = false
+		for f := range allFns {
+			if f.Pkg == nil || !mine[f.Pkg] {
+				continue
+			}
+			for _, b := range f.Blocks {
+				for _, in := range b.Instrs {
+					call, ok := in.(ssa.CallInstruction)
+					if !ok {
+						continue
+					}
+					callee := call.Common().StaticCallee()
+					if callee == nil || callee.Pkg == nil || !mine[callee.Pkg] {
+						continue
+					}
+					args := call.Common().Args
+					for i, a := range args {
+						if i >= len(callee.Params) {
+							break
+						}
+						if _, isPtr := a.Type().Underlying().(*types.Pointer); !isPtr {
+							continue
+						}
+						if g := globalOf(a, 0); g != nil && g.Pkg != nil && mine[g.Pkg] && paramGlobals[callee.Params[i]] == nil {
+							paramGlobals[callee.Params[i]] = g
+							changed = true
+						}
+					}
+				}
+			}
+		}
+	}
 	for f := range allFns {
 		if f.Pkg == nil || !mine[f.Pkg] {
 			continue
